@@ -399,7 +399,10 @@ def run_harness(fn, name=None, cfg=None, solver_timeout_ms=10000, max_paths=2000
                     pass
         res.obligations.append(ob)
         if verbose:
+            pass
+        if verbose:
             print("   [%s] %s path=%d %s %s %.3fs" % (name, label, ob.path, ob.status, ob.solver, ob.time_s))
+        return ob.status
 
     while ctx.worklist:
         prefix = ctx.worklist.pop()
